@@ -274,6 +274,7 @@ def check(case, obs):
         t = call(out.transform_fxn, d, ch)
         obs.claim('transform_fxn', not raised(t) and bool(np.allclose(np.asarray(t)[:, 2 + c], out.fitting['std_crv'][c](col), rtol=1e-12)),
                   'transform_fxn does not apply the fitted curve to its channel')
+    t_first = [np.asarray(out.fitting['std_crv'][c](Xd[:, 2 + c])).copy() for c in range(nch)]
     # ---- reproducible for a fixed seed
     out2 = run(d, chans, mef_values)
     same = (not raised(out2) and np.array_equal(np.asarray(out2.clustering['labels']), lab)
@@ -303,3 +304,6 @@ def check(case, obs):
         outs = run(d, [chans[c]], [mef_values[c]])
         oks = not raised(outs) and _same_curve(outs.fitting['beads_params'][0], out.fitting['beads_params'][c])
         obs.claim('channel_count', oks, lambda: 'calibrating %s alone gives another curve than together with the others' % chans[c])
+    # ---- the curves returned first still compute what they computed (later calibrations share nothing with them)
+    obs.claim('stable', all(np.array_equal(np.asarray(out.fitting['std_crv'][c](Xd[:, 2 + c])), t_first[c]) for c in range(nch)),
+              'standard curves returned by the first calibration changed after later calibrations')
